@@ -557,6 +557,13 @@ func (fs *fileSystem) Rename(oldname, newname string) error {
 			// oldinode cannot become a descendant of itself.
 			return oldinode, ErrInvalidArgument
 		}
+		if olddirf.inode == newdirf.inode && oldname == newname {
+			// Renaming an entry onto itself is a no-op. (Without
+			// this, the inner Child() call below "accepts"
+			// oldinode in place and the (nil, nil) return
+			// then deletes the entry.)
+			return oldinode, nil
+		}
 		if oldinode.FS() != cfs && newdirf.inode != olddirf.inode {
 			// moving a mount point to a different parent
 			// is not (yet) supported.
